@@ -91,6 +91,7 @@ pub fn shim_inout_get() {
 
 /// InOutBuf::new (length check, nothing written), len / is_empty, get_in / get_out, from(&mut [T]), from_mut
 #[cfg_attr(kani, kani::proof)]
+#[cfg_attr(kani, kani::unwind(8))]
 pub fn shim_inoutbuf_basic() {
     let i0: [u8; 4] = nd::any();
     let o0: [u8; 4] = nd::any();
@@ -250,6 +251,7 @@ pub fn shim_bytes_u128() {
 
 /// core helpers with assumed specifications: split_last_mut, mem::replace, div_ceil, checked_sub, wrapping arithmetic
 #[cfg_attr(kani, kani::proof)]
+#[cfg_attr(kani, kani::unwind(8))]
 pub fn shim_core_helpers() {
     let a0: [u8; 4] = nd::any();
     let n = nd::upto(4);
